@@ -230,6 +230,26 @@ pub fn record(seed: u64, tier: &str, out: &str) {
             let vals: Vec<i64> = (0..4096).map(|_| g.next(0..len)).collect();
             t.ev(json!({"ev": "period", "op": "next", "range_len": len, "seed": s.to_string(), "vals": vals}));
         }
+        // the other range forms of the same small range
+        let s = rng.u64();
+        let mut g = LibRng::from_seed(s);
+        let vals: Vec<i64> = (0..4096).map(|_| g.next(0..=(len - 1))).collect();
+        t.ev(json!({"ev": "period", "op": "next", "form": "inclusive", "range_len": len, "seed": s.to_string(), "vals": vals}));
+        let mut g = LibRng::from_seed(s);
+        let vals: Vec<i64> = (0..4096).map(|_| { let x: u16 = g.next(..(len as u16)); x as i64 }).collect();
+        t.ev(json!({"ev": "period", "op": "next", "form": "to", "range_len": len, "seed": s.to_string(), "vals": vals}));
+        let mut g = LibRng::from_seed(s);
+        let vals: Vec<i64> = (0..4096).map(|_| { let x: u8 = g.next(..=((len - 1) as u8)); x as i64 }).collect();
+        t.ev(json!({"ev": "period", "op": "next", "form": "to_inclusive", "range_len": len, "seed": s.to_string(), "vals": vals}));
+    }
+    // the full range of the 8-bit types is a small range too
+    for s in [42u64, rng.u64()] {
+        let mut g = LibRng::from_seed(s);
+        let vals: Vec<i64> = (0..4096).map(|_| { let x: u8 = g.next(..); x as i64 }).collect();
+        t.ev(json!({"ev": "period", "op": "next", "form": "full u8", "range_len": 256, "seed": s.to_string(), "vals": vals}));
+        let mut g = LibRng::from_seed(s);
+        let vals: Vec<i64> = (0..4096).map(|_| { let x: i8 = g.next(..); x as i64 }).collect();
+        t.ev(json!({"ev": "period", "op": "next", "form": "full i8", "range_len": 256, "seed": s.to_string(), "vals": vals}));
     }
     let ev = t.finish();
     println!("{}", json!({"events": ev, "runs": 1, "draws": draws, "nontrivial": draws}));
